@@ -17,6 +17,32 @@ CONSTANTS Ops,        \* subset of {"clonal_mix", "clonal_pure", "clonal_any", "
 
 PurityGrid == << <<1,10>>, <<2,10>>, <<3,10>>, <<4,10>>, <<5,10>>, <<6,10>>, <<7,10>>, <<8,10>>, <<9,10>>,
                  <<10,10>>, <<1,3>>, <<37,100>>, <<99,100>> >>
+(* Cross-table loci (17..28), computed from the tables copied in Karyotype.tla: the X and the Y *)
+(* table of a build differ (grch37 PAR1: X 60000-2699520, Y 10000-2649520; PAR2 of either build  *)
+(* lies at different coordinates on X and Y), so a row mask that looks up the wrong chromosome's   *)
+(* key only shows on a bin placed by the OTHER chromosome's coordinates or strictly between the   *)
+(* two tables' boundaries.                                                                        *)
+Loc(b, s, e) == [base |-> b, s |-> s, e |-> e]
+Lo2(a, b) == IF a < b THEN a ELSE b
+Hi2(a, b) == IF a < b THEN b ELSE a
+CrossLoci ==
+  LET g37 == ParTable.grch37  g38 == ParTable.grch38
+      sLo == Lo2(g37.PAR1X[1], g37.PAR1Y[1])  sHi == Hi2(g37.PAR1X[1], g37.PAR1Y[1])   \* 10000, 60000
+      eLo == Lo2(g37.PAR1X[2], g37.PAR1Y[2])  eHi == Hi2(g37.PAR1X[2], g37.PAR1Y[2])   \* 2649520, 2699520
+  IN <<
+  Loc("Y", eLo + 10480, eLo + 20480),           \* 17 strictly between the PAR1 ends of grch37: plain Y there (past PAR1Y)
+  Loc("Y", g37.PAR1X[1], g37.PAR1X[2]),          \* 18 Y bin at the PAR1X coordinates of grch37: plain Y there
+  Loc("Y", eLo + 480, eHi + 1),                  \* 19 Y bin ending one base past the PAR1X end of grch37
+  Loc("Y", sLo + 10000, sHi - 10000),            \* 20 strictly between the PAR1 starts of grch37: PAR-Y (inside PAR1Y)
+  Loc("X", sLo + 10000, sHi - 10000),            \* 21 the same on X: plain X under grch37 (before PAR1X)
+  Loc("X", eLo + 10480, eLo + 20480),            \* 22 strictly between the PAR1 ends on X: PAR-X (inside PAR1X)
+  Loc("X", g37.PAR1Y[1], g37.PAR1Y[2]),          \* 23 X bin at the PAR1Y coordinates of grch37: plain X there
+  Loc("Y", g37.PAR2X[1], g37.PAR2X[2]),          \* 24 Y bin at the PAR2X coordinates of grch37: plain Y
+  Loc("X", g37.PAR2Y[1], g37.PAR2Y[2]),          \* 25 X bin at the PAR2Y coordinates of grch37: plain X
+  Loc("Y", g38.PAR2X[1], g38.PAR2X[2]),          \* 26 Y bin at the PAR2X coordinates of grch38: plain Y
+  Loc("X", g38.PAR2Y[1], g38.PAR2Y[2]),          \* 27 X bin at the PAR2Y coordinates of grch38: plain X
+  Loc("X", g37.PAR1X[1], g37.PAR1Y[2] + 1) >>    \* 28 X bin from the PAR1X start to one base past the PAR1Y end: PAR-X
+NPlainLoci == 16    \* loci 17.. only differ from 2/3 when a PAR genome is given
 (* real coordinates inside / outside / on the edge of the PAR tables of params.py *)
 LociSeq == <<
   [base |-> "1", s |-> 1000000,   e |-> 2000000],     \*  1 autosome
@@ -35,6 +61,7 @@ LociSeq == <<
   [base |-> "Y", s |-> 10000,     e |-> 2649521],     \* 14 one base past grch37 PAR1Y
   [base |-> "Y", s |-> 56887901,  e |-> 57217415],    \* 15 one base before grch38 PAR2Y
   [base |-> "X", s |-> 100000,    e |-> 200000] >>    \* 16 interior of PAR1X in both builds
+   \o CrossLoci
 USeq == << <<1,4>>, <<1,2>>, <<7,10>>, <<1,1>>, <<5,4>>, <<3,2>>, <<2,1>> >>
 BafSeq == << <<0,0>>, <<0,8>>, <<1,8>>, <<2,8>>, <<3,8>>, <<4,8>>, <<5,8>>, <<6,8>>, <<7,8>>, <<8,8>> >>
 
@@ -97,6 +124,7 @@ InitMix ==
     /\ op = "clonal_mix" /\ U = <<>>
     /\ \E pl \in Ploidies, p \in PurityIdx, hx \in HapX, fe \in Females, pf \in Prefs, g \in Genos,
           loc \in LocusIdx, n \in 0..NMax :
+          /\ (g = "none" => loc <= NPlainLoci)
           /\ c = Cfg(pl, p, hx, fe, pf, g)
           /\ row = Row(loc, MixPoint(pl, p, hx, fe, g, loc, n), FALSE, n, 1)
 InitPure ==
